@@ -50,4 +50,30 @@ def slrInstr (i : Gen.Instr) : Bool :=
 /-- register-only programs without branches and jumps; `ret` allowed anywhere (the run ends at the first one) -/
 def StraightLineRet (app : App) : Bool := app.instrs.all slrInstr
 
+/-- the label an instruction names (if any) is defined and is the address of an instruction of the program or of its end -/
+def labelOk (app : App) (i : Gen.Instr) : Bool :=
+  match labelOf i with
+  | some l => (match app.labels.find? l with
+      | some v => v.toNat % 4 == 0 && decide (v.toNat / 4 ≤ app.instrs.length)
+      | none => false)
+  | none => true
+
+/-- an instruction of a register-only program whose only control flow is conditional branches and `ret` -/
+def brInstr (app : App) (i : Gen.Instr) : Bool :=
+  !isMemType i.instructionType && !isDivRem i.instructionType && !i.instructionType.IsUnconditionalBranch && labelOk app i
+
+/-- register-only programs with conditional branches (forward and backward) and `ret`, no `j`/`jal`/`jalr`, no `div`/`rem`;
+every label defined and pointing to an instruction (package R60b) -/
+def BranchOnly (app : App) : Bool := app.instrs.all (brInstr app)
+
+/-- an instruction of the class the proofs work with -/
+def gInstr (app : App) (i : Gen.Instr) : Bool :=
+  !isMemType i.instructionType && !i.instructionType.IsUnconditionalBranch && labelOk app i
+
+/-- the class the proofs work with: no load/store, no jump, labels well-formed, and `div`/`rem` only in programs without
+conditional branches (no wrong path).  It contains `StraightLineRet` and `BranchOnly`. -/
+def ProvedClass (app : App) : Bool :=
+  app.instrs.all (gInstr app) &&
+  (app.instrs.all (fun i => !isDivRem i.instructionType) || app.instrs.all (fun i => !i.instructionType.IsConditionalBranch))
+
 end Model.Mvp60
